@@ -233,7 +233,7 @@ impl Check for C01 {
     }
     fn dedup_bits(&self, tier: Tier) -> u32 {
         if tier.is_thorough() {
-            29
+            30
         } else {
             26
         }
@@ -274,7 +274,9 @@ impl Check for C01 {
                         super::c02::summarize(&s, case);
                     }
                     for (sig, d) in s.bad.drain(..) {
-                        if sig.starts_with("slice-outside-input") {
+                        // a panic in the checked build is an overflow / violated debug assertion of an unsafe contract:
+                        // in the shipping profile the same input runs on into the unchecked code
+                        if sig.starts_with("slice-outside-input") || sig.starts_with("panic:") {
                             case.fail(sig, format!("placement {}: {}", placement, d));
                         }
                     }
